@@ -35,7 +35,7 @@ func (c *c20Case) Key() string {
 	return c.Part + "|" + c.Src + "|" + strings.Join(c.Over, ",") + fmt.Sprint(c.Site)
 }
 
-var c20Inline = []string{"w", " ", "*", "**", "_", "`code`", `[t](u "ti")`, "![a](s)", "<http://x.y>", "<b>", "&amp;", "&copy;", "<", "&", `\*`, `\<`, "{{ x }}", "  \n", "~~", "a < b", "\n", "`a\nb`", "`x\\|y`", `[e](u\_x "t\*")`, `[q](http://a.b/?x=1&amp;y=2 "a &amp; b")`, "![a *b* <c> &amp;](s)", "<!-- c -->", "www.ex.org/p", "https://pl.ex.net/y?a=1&b=2", "<dev@ex.com>", "me@ex.org", "![a `c\\*d` &amp;](s)", "[l `c\\*d`](u)", "&nbsp;", "[f](false)", "[m](a{{x}}b \"t{{ x }}\")", `[t](u "false")`, `![i](s "0")`, "![two\nlines](s)", "![foo ![bar](/u)](/v)", "[![*a* ![b](c) `d`](e)](f)", "![<http://a.b> c](x)", "![l [k](u) m](s)", `\&`, "ouml;", "&#38;", "&#0065;", "&#x22;", "amp;"}
+var c20Inline = []string{"w", " ", "*", "**", "_", "`code`", `[t](u "ti")`, "![a](s)", "<http://x.y>", "<b>", "&amp;", "&copy;", "<", "&", `\*`, `\<`, "{{ x }}", "  \n", "~~", "a < b", "\n", "`a\nb`", "`x\\|y`", `[e](u\_x "t\*")`, `[q](http://a.b/?x=1&amp;y=2 "a &amp; b")`, "![a *b* <c> &amp;](s)", "<!-- c -->", "www.ex.org/p", "https://pl.ex.net/y?a=1&b=2", "<dev@ex.com>", "me@ex.org", "![a `c\\*d` &amp;](s)", "[l `c\\*d`](u)", "&nbsp;", "[f](false)", "[m](a{{x}}b \"t{{ x }}\")", `[t](u "false")`, `![i](s "0")`, "![two\nlines](s)", "![foo ![bar](/u)](/v)", "[![*a* ![b](c) `d`](e)](f)", "![<http://a.b> c](x)", "![l [k](u) m](s)", `\&`, "ouml;", "&#38;", "&#0065;", "&#x22;", "amp;", "{#top}", "{.lead}", `{#a .b c="d"}`}
 
 var c20Ref = goldmark.New(goldmark.WithExtensions(extension.GFM), goldmark.WithRendererOptions(ghtml.WithUnsafe()))
 
@@ -132,6 +132,8 @@ var c20Blocks = []string{
 	"| a | b | c |\n|:--|--:|:-:|\n| 1 |\n| x | y | z |\n", "| a | b |\n|--:|:-:|\n|\n| 1 | 2 | 3 |\n",
 	// sizes: list starts of nine digits, five levels of nesting, a 13 x 13 table, 13 list items
 	"123456789. big start\n", "- a\n  - b\n    - c\n      - d\n        - e\n", "> a\n> > b\n> > > c\n> > > > d\n", "| h0 | h1 | h2 | h3 | h4 | h5 | h6 | h7 | h8 | h9 | h10 | h11 | h12 |\n|:-:|--:|---|:-:|--:|---|:-:|--:|---|:-:|--:|---|:-:|\n| c00 | c01 | c02 | c03 | c04 | c05 | c06 | c07 | c08 | c09 | c010 | c011 | c012 |\n| c10 | c11 | c12 | c13 | c14 | c15 | c16 | c17 | c18 | c19 | c110 | c111 | c112 |\n| c20 | c21 | c22 | c23 | c24 | c25 | c26 | c27 | c28 | c29 | c210 | c211 | c212 |\n| c30 | c31 | c32 | c33 | c34 | c35 | c36 | c37 | c38 | c39 | c310 | c311 | c312 |\n| c40 | c41 | c42 | c43 | c44 | c45 | c46 | c47 | c48 | c49 | c410 | c411 | c412 |\n| c50 | c51 | c52 | c53 | c54 | c55 | c56 | c57 | c58 | c59 | c510 | c511 | c512 |\n| c60 | c61 | c62 | c63 | c64 | c65 | c66 | c67 | c68 | c69 | c610 | c611 | c612 |\n| c70 | c71 | c72 | c73 | c74 | c75 | c76 | c77 | c78 | c79 | c710 | c711 | c712 |\n| c80 | c81 | c82 | c83 | c84 | c85 | c86 | c87 | c88 | c89 | c810 | c811 | c812 |\n| c90 | c91 | c92 | c93 | c94 | c95 | c96 | c97 | c98 | c99 | c910 | c911 | c912 |\n| c100 | c101 | c102 | c103 | c104 | c105 | c106 | c107 | c108 | c109 | c1010 | c1011 | c1012 |\n| c110 | c111 | c112 | c113 | c114 | c115 | c116 | c117 | c118 | c119 | c1110 | c1111 | c1112 |\n| c120 | c121 | c122 | c123 | c124 | c125 | c126 | c127 | c128 | c129 | c1210 | c1211 | c1212 |\n",
+	// the attribute syntax of other Markdown dialects is text in this one
+	"## Install {#install}\n", "Setext title {#st .c}\n=====\n", "# H *e* {.lead}\n\npara {#p}\n", "```go {#code}\nx\n```\n",
 	"1. i1\n2. i2\n3. i3\n4. i4\n5. i5\n6. i6\n7. i7\n8. i8\n9. i9\n10. i10\n11. i11\n12. i12\n13. i13\n",
 }
 
